@@ -287,23 +287,17 @@ func (w *TimingWheel) moveTask(task baseEntry) {
 		return
 	}
 
+	// 旧任务所在槽位与当前指针的相对位置不确定，原地修改 circle/diff
+	// 会让任务提前或推迟整整一圈；统一为：作废旧任务，按新延迟重新入槽。
 	pos, circle := w.getPositionAndCircle(task.delay)
-	if pos > timer.pos {
-		timer.item.circle = circle
-		timer.item.diff = pos - timer.pos
-	} else if circle > 0 {
-		circle--
-		timer.item.circle = circle
-		timer.item.diff = w.numSlots + pos - timer.pos
-	} else {
-		timer.item.removed = true
-		newItem := &timingEntry{
-			baseEntry: task,
-			value:     timer.item.value,
-		}
-		w.slots[pos].PushBack(newItem)
-		w.setTimerPosition(pos, newItem)
+	timer.item.removed = true
+	newItem := &timingEntry{
+		baseEntry: task,
+		value:     timer.item.value,
+		circle:    circle,
 	}
+	w.slots[pos].PushBack(newItem)
+	w.setTimerPosition(pos, newItem)
 }
 
 func (w *TimingWheel) getPositionAndCircle(d time.Duration) (pos, circle int) {
